@@ -3,9 +3,9 @@ NOTES = ("All checks: python3 vt.py <id> --tier quick|thorough. Exploration runs
          "small C++ models next to the harness. Defects found so far were repaired by 'fix:' commits in /repo and are listed "
          "in known_findings.txt as fixed: entries. See DESIGN.md.")
 ENGINES = [
-    {"name": "vt-engine", "path": "/verif/engine", "serves_properties": ["C01", "C02", "C03", "C04", "C05", "C06", "C08", "C09", "C10", "C13", "C14", "C16"],
+    {"name": "vt-engine", "path": "/verif/engine", "serves_properties": ["C01", "C02", "C03", "C04", "C05", "C06", "C08", "C09", "C10", "C11", "C13", "C14", "C15", "C16"],
      "kind_free_text": "explicit-state BFS to a fixpoint over quiescent states of generated machines, executed on the real library (fresh instance + history replay per edge), with deviation-bounded enumeration of every callback decision inside a step; monitors and a reference semantics evaluated on every edge"},
-    {"name": "vt-component", "path": "/verif/harness", "serves_properties": ["C07", "C18", "C19", "C20"],
+    {"name": "vt-component", "path": "/verif/harness", "serves_properties": ["C07", "C12", "C17", "C18", "C19", "C20"],
      "kind_free_text": "explicit-state BFS / bounded-exhaustive enumeration over the concrete state of real library components, compared edge by edge with std containers or independent reference code"},
 ]
 PENDING = {}
@@ -74,3 +74,20 @@ chk("C14", "model_checking",
 chk("C16", "model_checking",
     "The exhaustive exploration runs with a recording logger (interface and verbose mode): on every edge the logger record is merged with the callbacks' own trace (one report per invoked callback / request / cancel / status / resolution, nothing extra), every base edge is re-run without logger and must be identical, structure()/activityHistory() are compared with isActive() after every step and the saturating recurrence over a 300-step tail.",
     ENGINE_NOTE, "explicit-state model checking, logger-vs-trace merge oracle", "DESIGN.md 4 C16")
+
+chk("C11", "exploration",
+    "The exhaustive exploration is re-run under ASan+UBSan (recover mode, reports counted) with the library's own assertions routed to the verification hook, the instance living in an exactly sized heap block; a dedicated capacity alphabet from every reachable state (request bursts of cap, cap+1, cap+2, 2*cap with a differential 'equals the accepted prefix' oracle; every active state requesting in one update; task floods beyond TASK_CAPACITY; replayTransitions with over-long lists; schedule(root); copy used after its original is destroyed, in a forked child) and a separate build with malloc/calloc/realloc wrapped and operator new replaced that counts allocations while any API call is on the stack.",
+    "Trusts ASan/UBSan, the interposers (self-tested at start-up), the assertion hook. Sanitizer level 'exploration': absence of reports on everything explored, not a proof. Bounds: curated programs, bursts up to 2x capacity.",
+    "bounded-exhaustive exploration of operation sequences with sanitizer / assertion / allocation-counter oracles", "DESIGN.md 4 C11")
+chk("C12", "exploration",
+    "Dedicated machines (flat Utilitarian/Random regions of width 2..5, nested and orthogonal combinations) driven through utilize / randomize / changeTo with every rank vector over {-1,0,1}, every utility vector over {0,1,2,3} and r = k/64 (exact integer oracle, strict equality of the activated configuration) and a rounding domain (8-value utility grid incl. 2^-24, 1e10; r adjacent to every cumulative boundary and to 1) with hard rules (something selected, top rank, positive utility, one draw per region) and a 4-ulp interval rule.",
+    "Trusts the exact-arithmetic oracle (integers / long double), compilers; float inputs outside the listed alphabets and headless regions are not covered.",
+    "bounded-exhaustive input enumeration with exact-arithmetic oracle", "DESIGN.md 4 C12")
+chk("C15", "exploration",
+    "One program family per structure, driven over its complete reachable state graph with batches and one callback deviation using only the feature-independent alphabet, compiled under a strength-2 covering array (thorough: all 256 combinations) of the eight HFSM2_ENABLE_* switches x payload x substitution limit x task capacity x single/split headers x g++/clang++ x -std; the 64-bit digest over every callback, request, answer and resulting state of the whole exploration must be identical within a family; tools/join.py must reproduce the single header byte for byte.",
+    "Combinations that do not compile are listed, not judged. Trusts the digest (FNV-1a over the complete behaviour record).",
+    "full-factorial / covering-array configuration differential over an exhaustive exploration", "DESIGN.md 4 C15")
+chk("C17", "exploration",
+    "All ordered tree shapes with <= 5 (thorough 7) states over composite/orthogonal x headed/headless (plus strategy relabellings and wide regions of every width 1..17 at depth 0..2): identifiers, region ids and every published count are compared value by value with an independent Python numbering, the registry filled at construction (parents, region heads/sizes, ortho units) likewise, peers with the same shape compared directly; three compiler/header variants.",
+    "Trusts the independent numbering in gen/structures.py (reviewed against the declaration rules) and the compilers; shapes beyond 7 states only through the wide/big families.",
+    "bounded-exhaustive enumeration of programs with an independent-numbering oracle", "DESIGN.md 4 C17")
